@@ -41,7 +41,7 @@ Inductive op :=
 | OMapSet (h : Z) (c : nat) (v : Z)
 | ONewBatch (n : nat) (ids : list nat) (rels : list hrel) (vals : list (nat * Z))
 | OExchangeBatch (f : nat) (brels : list hrel) (add rem : list nat) (rels : list hrel) (vals : list (nat * Z))
-| OSetRelBatch (f : nat) (brels : list hrel) (rels : list hrel)
+| OSetRelBatch (f : nat) (brels : list hrel) (mids : list nat) (rels : list hrel)
 | OAlive (h : Z)
 | OHas (h : Z) (c : nat)
 | OGetRel (h : Z) (c : nat)
@@ -109,7 +109,7 @@ Definition decode_op (l : list Z) : option op :=
         | 29 => (h <-- pZ ;; c <-- pnat ;; v <-- pZ ;; pret (OMapSet h c v)) args
         | 30 => (n <-- pnat ;; ids <-- pnats ;; rels <-- prels ;; vals <-- pvals ;; pret (ONewBatch n ids rels vals)) args
         | 31 => (f <-- pnat ;; br <-- prels ;; add <-- pnats ;; rem <-- pnats ;; rels <-- prels ;; vals <-- pvals ;; pret (OExchangeBatch f br add rem rels vals)) args
-        | 32 => (f <-- pnat ;; br <-- prels ;; rels <-- prels ;; pret (OSetRelBatch f br rels)) args
+        | 32 => (f <-- pnat ;; br <-- prels ;; mids <-- pnats ;; rels <-- prels ;; pret (OSetRelBatch f br mids rels)) args
         | 33 => (h <-- pZ ;; pret (OAlive h)) args
         | 34 => (h <-- pZ ;; c <-- pnat ;; pret (OHas h c)) args
         | 35 => (h <-- pZ ;; c <-- pnat ;; pret (OGetRel h c)) args
@@ -125,8 +125,15 @@ Definition decode_op (l : list Z) : option op :=
 
 Record script_cfg := { sc_cap : nat; sc_caprel : nat; sc_bits : nat; sc_debug : bool; sc_kinds : list ckind }.
 
+(** Component type codes of the harness: 0-3 plain structs {V int64}; 4,5 pointer-bearing
+    (non-trivial) {V int64; S string}; 6 zero-size struct{}; 7,8 relations {RelationMarker; V int64};
+    9 zero-size relation {RelationMarker}; >= 100 dynamically built plain padding types. *)
 Definition kind_of_code (z : Z) : ckind :=
-  {| ck_rel := Z.testbit z 0; ck_zs := Z.testbit z 1; ck_triv := Z.testbit z 2 |}.
+  if (Z.eqb z 4 || Z.eqb z 5)%bool then {| ck_rel := false; ck_zs := false; ck_triv := false |}
+  else if Z.eqb z 6 then {| ck_rel := false; ck_zs := true; ck_triv := true |}
+  else if (Z.eqb z 7 || Z.eqb z 8)%bool then {| ck_rel := true; ck_zs := false; ck_triv := true |}
+  else if Z.eqb z 9 then {| ck_rel := true; ck_zs := true; ck_triv := true |}
+  else {| ck_rel := false; ck_zs := false; ck_triv := true |}.
 
 Definition decode_cfg (l : list Z) : option script_cfg :=
   match (c <-- pnat ;; cr <-- pnat ;; b <-- pnat ;; d <-- pbool ;; ks <-- plist pZ ;;
@@ -360,12 +367,11 @@ Definition step_op (debug : bool) (o : op) : MW (list Z) :=
       br <- batch_rels f brels ;;
       to_relations (mk_of_list add) rels ;;;
       w_exchange_batch f br add rem rels vals ;;; ret []
-  | OSetRelBatch f hbrels hrels =>
+  | OSetRelBatch f hbrels mids hrels =>
       brels <- resolveR hbrels ;;
       rels <- resolveR hrels ;;
       br <- batch_rels f brels ;;
-      ff <- getF f ;;
-      to_relations (f_mask ff) rels ;;;
+      to_relations (mk_of_list mids) rels ;;;
       w_set_relations_batch f br rels ;;; ret []
   | OAlive h => e <- resolveH h ;; s <- get ;; ret [Zb (alive s e)]
   | OHas h c =>
